@@ -97,15 +97,18 @@ const verifC07_h1 = "11111111111111111111111111111111111111111111111111111111111
 const verifC07_h2 = "2222222222222222222222222222222222222222222222222222222222222222"
 
 func verifHarness_C07_MutableProtoStore() {
-	ops := 2
-	if rt.Tier() > 0 {
-		ops = 3
+	// quick: 2 requests, each cache write possibly overlapped by a whole further
+	// request (at most 2 overlaps); thorough: additionally 3 requests with at
+	// most 1 overlap (3 requests with 3 overlaps did not finish in two hours).
+	ops, overlaps := 2, 2
+	if rt.Tier() > 0 && rt.NondetBool("longer history with fewer overlapping requests") {
+		ops, overlaps = 3, 1
 	}
 	rt.Bound("requests_after_first_update", ops)
-	rt.Bound("overlapping_requests", ops)
+	rt.Bound("overlapping_requests", overlaps)
 	rt.MustCover("store:release-during-write", "store:write-failed-requeued", "store:all-written", "store:second-action-updated")
 	ctx := context.Background()
-	iscc := &verifC07_iscc{stored: map[string]int64{}, mayFail: rt.NondetBool("writes may fail"), budget: ops}
+	iscc := &verifC07_iscc{stored: map[string]int64{}, mayFail: rt.NondetBool("writes may fail"), budget: overlaps}
 	ss := NewBlobAccessMutableProtoStore[remoteexecution.Digest](iscc, 1000).(*blobAccessMutableProtoStore[remoteexecution.Digest, *remoteexecution.Digest])
 	d1 := digest.MustNewDigest("", remoteexecution.DigestFunction_SHA256, verifC07_h1, 1)
 	d2 := digest.MustNewDigest("", remoteexecution.DigestFunction_SHA256, verifC07_h2, 1)
